@@ -513,6 +513,12 @@ func (e *Exec) applyHavoc(st *State, h *hctx, fn *ssa.Function, resType types.Ty
 				}
 				continue
 			}
+			if l.key == "@elems" {
+				// over-approximation on the caller's side: the fields of ALL objects of the element type
+				// are forgotten (not only those inside this array)
+				e.havocStructHeaps(st, elemsType[l.addr])
+				continue
+			}
 			if l.key == "G|*" {
 				// every ghost variable known so far
 				for k := range e.ghostNames {
@@ -651,6 +657,11 @@ func (e *Exec) verifIntrinsic(fr *frame, st *State, name string, fn *ssa.Functio
 				unsupported("free bound variable in ensures")
 			}
 			st.Reach = smt.And(st.Reach, args[1])
+			// case contracts: a callee postcondition assumed on EVERY path (no branch condition pending)
+			// may pin further values to constants (e.g. a decoded sub-opcode): learn them for folding
+			if len(e.facts) > 0 && e.decideOn() && e.fold(st.Path).IsTrue() {
+				e.learnFacts(args[1])
+			}
 		} else {
 			saveSpec := e.spec
 			e.spec = 0
@@ -794,6 +805,13 @@ func (e *Exec) verifIntrinsic(fr *frame, st *State, name string, fn *ssa.Functio
 		h := e.curH()
 		h.hasMod = true
 		et := fn.Params[0].Type().Underlying().(*types.Slice).Elem()
+		if _, isStruct := et.Underlying().(*types.Struct); isStruct {
+			// every field of every element of the backing array (spare capacity included)
+			arr := SArr(args[0])
+			elemsType[arr] = et
+			h.frame.locs = append(h.frame.locs, frameLoc{"@elems", arr})
+			return unit
+		}
 		if isAggregate(et) {
 			unsupported("modifies elems() of aggregate element type")
 		}
@@ -989,6 +1007,49 @@ func (e *Exec) addFrameLocs(fs *frameSpec, a *smt.Term, t types.Type) {
 		e.heapSort[cellKey(t)] = smt.Array(AddrS, s)
 		fs.locs = append(fs.locs, frameLoc{cellKey(t), a})
 	}
+}
+
+// havocStructHeaps forgets the field heaps of struct type t (recursively for embedded structs/arrays).
+func (e *Exec) havocStructHeaps(st *State, t types.Type) {
+	switch u := t.Underlying().(type) {
+	case *types.Struct:
+		for i := 0; i < u.NumFields(); i++ {
+			ft := u.Field(i).Type()
+			if isAggregate(ft) {
+				e.havocStructHeaps(st, ft)
+				continue
+			}
+			fid := e.W.FieldID(t, i)
+			k := e.W.fieldInfo[fid].key
+			hs := e.fieldHeapSort(fid)
+			e.heapSort[k] = hs
+			st.Heaps[k] = e.fresh("L|"+k, hs)
+		}
+	case *types.Array:
+		if isAggregate(u.Elem()) {
+			e.havocStructHeaps(st, u.Elem())
+			return
+		}
+		k := elemKey(u.Elem())
+		hs := smt.Array(AddrS, smt.Array(BV64, e.W.SortOf(u.Elem())))
+		e.heapSort[k] = hs
+		st.Heaps[k] = e.fresh("L|"+k, hs)
+	}
+}
+
+// elemBase: the backing array an address lies in (syntactic: fld(...elm(arr, i)...)), or nil.
+func elemBase(a *smt.Term) *smt.Term {
+	for a != nil && a.Op == "ctor" {
+		switch a.Name {
+		case "fld":
+			a = a.Args[0]
+		case "elm":
+			return a.Args[0]
+		default:
+			return nil
+		}
+	}
+	return nil
 }
 
 func (e *Exec) ghostInt(st *State, name string) *smt.Term {
